@@ -62,8 +62,8 @@ CHECKS["C17"] = dict(
 
 CHECKS["C15"] = dict(
     technique="Discovery.tla model-checked by TLC for the four filter settings (consumer and discover loop as independent pollers, replies at any time/multiplicity) + TLC trace validation of real GeckoAsyncLocator.discover() runs against scripted responders on the virtual loop",
-    text="TLC checks NoDuplicates, OnlyRequested, WithinTimeout, PromptWhenFiltered, PromptWhenAny and NotEarly over every arrival pattern of <=4 replies from 3 spas and every consumer/loop wake order. Real discovery runs (0..6 responders with names containing '|' and latin-1, duplicate and late replies, loss, address/identifier/absent filters, suspended client handlers, four wake-order policies, a boundary grid around the initial wait and the timeout) are logged - reply arrival, queue pops, announced descriptors, return time, listed spas, endpoint and LOC tasks - and validated by TLC (FIFO consumption, one announcement per new wanted spa with identifier/name/address intact, listed = announced, return-time rule, endpoint closed, no helper task left). Ten runs use a loop whose every wake-up is up to 30 ms late; the trace bounds move by one lateness, not one per poll.",
-    note="Trusted: TLC, virtual loop, queue wrapper. Timing tolerance one poll + 6 ms (+ the client's own handler suspension where it delays the code). Only hello replies are sent to the locator's queue.",
+    text="TLC checks NoDuplicates, OnlyRequested, WithinTimeout, PromptWhenFiltered, PromptWhenAny and NotEarly over every arrival pattern of <=4 replies from 3 spas and every consumer/loop wake order. Real discovery runs (0..6 responders with names containing '|' and latin-1, duplicate and late replies, loss, address/identifier/absent filters, suspended client handlers, four wake-order policies, a boundary grid around the initial wait and the timeout) are logged - reply arrival, queue pops, announced descriptors, return time, listed spas, endpoint and LOC tasks - and validated by TLC (FIFO consumption, one announcement per new wanted spa with identifier/name/address intact, listed = announced, return-time rule, endpoint closed, no helper task left). Ten runs use a loop whose every wake-up is up to 30 ms late; the trace bounds move by one lateness, not one per poll. The blocking GeckoLocator runs on the stepped engine (caller loop and real retry thread under strict hand-over on the virtual clock) and is validated by the same trace specification in its ListsAll variant.",
+    note="Trusted: TLC, virtual loop, queue wrapper. Timing tolerance one poll + 6 ms (+ the client's own handler suspension where it delays the code). Only hello replies are sent to the locator's queue. Known finding D20: the blocking locator lists spas other than the requested one.",
     design="§4 C15")
 
 CHECKS["C11"] = dict(
